@@ -57,6 +57,9 @@ class Worker:
         if r.get("boot_out", "").strip() or r.get("boot_err", "").strip():
             raise MachineryError("driver failed to load: %r %r" % (r.get("boot_out"), r.get("boot_err")))
         self._reapply_setup()
+        if self.extra_env.get("PW_EXACT"):
+            # exact reservations + one-cell growth for everything this worker runs (C33's corpus family)
+            self._rpc({"op": "tight", "on": True, "exact": True}, 30.0)
 
     def _reapply_setup(self):
         for (text, module, mode) in self.setup_consults:
